@@ -1,12 +1,15 @@
 (* Properties_C15d.v — property C15, second half, in its honest form: NO ban on holds.
    Properties_C15b.v / Properties_C15c.v prove that the service loop reaches quiescence provided
    that no remaining script entry answers HOLD and that the command is not currently held.  The
-   domain of C15 only excuses an UNRELEASED hold (scope decision D5).  Here write and run handlers
-   may answer HOLD at any time, the start state may be held, with or without a release already
-   requested, and handlers of either machine may release the hold (inner cat_hold_exit calls,
-   HOLD_EXIT return codes).  The only condition on HOLD is that of scope decision D3: no HOLD answer
-   to the event machine — for scripts, whose keys do not record which machine asks: no HOLD in any
-   read / test script (no_rt_hold, Properties_Inv.v).
+   domain of C15 only excuses an UNRELEASED hold (scope decision D5).  Here ANY handler may answer
+   HOLD at any time, the start state may be held, with or without a release already requested, and
+   handlers of either machine may release the hold (inner cat_hold_exit calls, HOLD_EXIT return
+   codes).  Theorems 1-3 need NO condition on HOLD answers at all — not even that of scope decision
+   D3 (no HOLD answer to the event machine): a HOLD answer, whoever gets it, consumes a script
+   entry and puts the command machine into CS_HOLD, which is all the liveness argument needs.
+   (D3 is needed for the invariants Safe / J to be reached from cat_init: theorems 4, 5, which use
+   Properties_Inv.scenario_inv_scripted, assume no_rt_hold — no HOLD in any read / test script,
+   since script keys do not record which machine asks.)
 
    Under every finite readiness schedule, after at most  C15_bound D w + sched_left w  calls
    (the SAME bound as in Properties_C15c.v) the run is
@@ -24,7 +27,7 @@
    flush of the result code); a HOLD answer consumes a script entry, which pays for it.  The step
    lemmas of the command machine (Lemmas_C15ba.v) are reused; those of the event machine are
    proved again without the no-hold assumption, since the event machine runs while the command
-   is held.
+   is held.  All that is used of J is its first clause, k_hold = true <-> k_state = CS_HOLD.
 
    Definitions used in the statements: script_ok, res_calls_ok, C15_bound (TermDefs.v, SchedDefs.v,
    see Properties_C15b.v), sched_left (Properties_C15c.v), no_rt_hold, res_calls_valid, valid_sop
@@ -40,7 +43,6 @@ Theorem C15_quiescence_or_hold : forall D m (w : sworld),
   d_mutex D = false ->
   wf_desc D m -> Safe D m (st _ _ _ w) ->             (* safety invariant, e.g. any reachable state *)
   J (ctl_of (st _ _ _ w)) ->                          (* control invariant, e.g. any reachable state *)
-  no_rt_hold (hs _ _ _ w) = true ->                   (* D3: no HOLD in read / test scripts *)
   script_ok (res_calls_ok D) (hs _ _ _ w) = true ->   (* inner triggers name pool commands *)
   u_count (u (st _ _ _ w)) <= d_cap D ->              (* the queue holds at most d_cap events *)
   exists n, n <= C15_bound D w + sched_left w /\
@@ -61,7 +63,6 @@ Theorem C15_quiescence_or_hold_nothing_left : forall D m (w : sworld),
   d_mutex D = false ->
   wf_desc D m -> Safe D m (st _ _ _ w) ->
   J (ctl_of (st _ _ _ w)) ->
-  no_rt_hold (hs _ _ _ w) = true ->
   script_ok (res_calls_ok D) (hs _ _ _ w) = true ->
   u_count (u (st _ _ _ w)) <= d_cap D ->
   exists n, n <= C15_bound D w + sched_left w /\
@@ -95,7 +96,8 @@ Print Assumptions C15_hold_suspended_forever.
 
 (* 4. from cat_init: every scripted scenario (API calls — cat_hold_exit included —, new input and
    application stores in any order; Properties_Inv.scenario_inv_scripted) reaches a world from
-   which the service loop ends quiescent or suspended.  No condition on the world reached. *)
+   which the service loop ends quiescent or suspended.  No condition on the world reached.
+   (no_rt_hold: scope decision D3, needed for Safe and J to hold in the world reached.) *)
 Theorem C15_scenario_quiescence_or_hold : forall D m x mx h sops,
   d_mutex D = false -> wf_desc D m -> Forall (valid_sop D) sops ->
   no_rt_hold h = true -> script_ok (res_calls_valid D) h = true ->
@@ -189,7 +191,7 @@ Proof. unfold wf_desc. cbn. repeat split; try lia; repeat (apply Forall_cons; [a
    Properties_C15c.v fails; the bound is 137864 + 13 *)
 Example C15d_ex_hypotheses : forall h, h = scr_susp \/ h = scr_rel ->
   d_mutex exD = false /\ wf_desc exD [] /\ Safe exD [] (st _ _ _ (exW h)) /\ J (ctl_of (st _ _ _ (exW h))) /\
-  no_rt_hold (hs _ _ _ (exW h)) = true /\ script_ok (res_calls_ok exD) (hs _ _ _ (exW h)) = true /\
+  script_ok (res_calls_ok exD) (hs _ _ _ (exW h)) = true /\
   u_count (u (st _ _ _ (exW h))) <= d_cap exD /\
   script_ok no_hold_res (hs _ _ _ (exW h)) = false /\
   N.of_nat (C15_bound exD (exW h) + sched_left (exW h)) = 137877%N.
@@ -247,15 +249,20 @@ Proof.
   split; [vm_compute; reflexivity|]. apply Nat.leb_le. vm_compute. reflexivity.
 Qed.
 
+(* from the bound as a number *)
+Lemma ex_applies : forall (w : sworld) (b : N) (P : nat -> Prop),
+  (exists n, n <= C15_bound exD w + sched_left w /\ P n) ->
+  N.of_nat (C15_bound exD w + sched_left w) = b -> exists n, (N.of_nat n <= b)%N /\ P n.
+Proof. intros w b P (n & Hn & Hp) Hb. exists n. split; [rewrite <- Hb; lia | exact Hp]. Qed.
+
 (* theorem 1 applies to both worlds *)
 Example C15d_ex_theorem_applies : forall h, h = scr_susp \/ h = scr_rel ->
   exists n, (N.of_nat n <= 137877)%N /\
     ((inq (io _ _ _ (nsvc exD n (exW h))) = [] /\ snd (exdo (nsvc exD n (exW h)) OService) = ST_OK) \/
      suspended (nsvc exD n (exW h))).
 Proof.
-  intros h Hh. destruct (C15d_ex_hypotheses h Hh) as (H1 & H2 & H3 & H4 & H5 & H6 & H7 & _ & H9).
-  destruct (C15_quiescence_or_hold exD [] (exW h) H1 H2 H3 H4 H5 H6 H7) as (n & Hn & Ho).
-  exists n. split; [rewrite <- H9; lia | exact Ho].
+  intros h Hh. destruct (C15d_ex_hypotheses h Hh) as (H1 & H2 & H3 & H4 & H6 & H7 & _ & H9).
+  exact (ex_applies (exW h) 137877%N _ (C15_quiescence_or_hold exD [] (exW h) H1 H2 H3 H4 H6 H7) H9).
 Qed.
 
 (* a held start state WITH a release requested: the scenario of the suspended run followed by the
@@ -289,25 +296,52 @@ Example C15d_ex_scenario_applies :
      suspended (nsvc exD n exWh)).
 Proof.
   destruct C15d_ex_scenario as (F & A & B & _ & _ & _ & _ & _ & _ & _ & Hb).
-  pose proof (C15_scenario_quiescence_or_hold exD [] (mkSio [65; 84; 43; 88; 10; 65; 84; 10]%N ex_rd ex_wr)
-              (mkSmu [] []) scr_susp ex_sops eq_refl ex_wf F A B) as X.
-  change (exists n, n <= C15_bound exD exWh + sched_left exWh /\
-            ((inq (io _ _ _ (nsvc exD n exWh)) = [] /\ snd (exdo (nsvc exD n exWh) OService) = ST_OK) \/
-             suspended (nsvc exD n exWh))) in X.
-  destruct X as (n & Hn & Ho). exists n. split; [|exact Ho]. rewrite <- Hb. lia.
+  exact (ex_applies exWh 45068%N
+           (fun n => (inq (io _ _ _ (nsvc exD n exWh)) = [] /\ snd (exdo (nsvc exD n exWh) OService) = ST_OK) \/
+                     suspended (nsvc exD n exWh))
+           (C15_scenario_quiescence_or_hold exD [] (mkSio [65; 84; 43; 88; 10; 65; 84; 10]%N ex_rd ex_wr)
+              (mkSmu [] []) scr_susp ex_sops eq_refl ex_wf F A B) Hb).
 Qed.
 
-(* why D3 is needed: if the READ handler answers HOLD to the EVENT machine, the command machine is
-   put into CS_HOLD while the event machine stays in its handler loop: after the script is exhausted
-   the event ends, but a read script that keeps answering HOLD is called again by every
-   cat_service call, one script entry per call — there is no bound independent of the script, and
-   the run is neither quiescent nor `suspended` while entries are left.  (With finite scripts the
-   loop ends when the script is exhausted; the reference implementation loops for ever.) *)
+(* theorems 1-3 do not need D3.  Here the READ handler answers HOLD to the EVENT machine, 30 times
+   (no_rt_hold fails).  The first answer puts the command machine — which had just consumed the
+   `A` of "AT\n" — into CS_HOLD; the event machine stays in its handler loop and calls the handler
+   again in every cat_service call, one script entry per call; when the script is exhausted the
+   event ends, and the run is suspended after 32 calls with "T\n" pending.  (The command in
+   progress is lost: that is the defect behind scope decision D3, and J does not survive it; the
+   liveness statement is not affected.) *)
+Definition scr_ev : shs := [((1, 0, 0), repeat (mkHres RC_HOLD None [] []) 30)].
+Definition exWe : sworld :=
+  srun exD (sinit exD [] (mkSio [65; 84; 10]%N [] []) (mkSmu [] []) scr_ev) [SOp (OTrigger 0 T_READ)].
+
 Example C15d_ex_event_side_hold :
-  let h := [((1, 0, 0), repeat (mkHres RC_HOLD None [] []) 30)] in
-  let w := srun exD (sinit exD [] (mkSio [] [] []) (mkSmu [] []) h) [SOp (OTrigger 0 T_READ)] in
-  no_rt_hold h = false /\
-  map (fun n => script_left (hs _ _ _ (nsvc exD n w))) [0; 10; 20; 30] = [30; 22; 12; 2] /\
-  map (fun n => snd (exdo (nsvc exD n w) OService)) (seq 0 30) = repeat ST_BUSY 30 /\
-  u_state (u (st _ _ _ (nsvc exD 30 w))) = US_READ_LOOP /\ k_state (k (st _ _ _ (nsvc exD 30 w))) = CS_HOLD.
-Proof. vm_compute. repeat split; reflexivity. Qed.
+  no_rt_hold scr_ev = false /\
+  (d_mutex exD = false /\ wf_desc exD [] /\ Safe exD [] (st _ _ _ exWe) /\ J (ctl_of (st _ _ _ exWe)) /\
+   script_ok (res_calls_ok exD) (hs _ _ _ exWe) = true /\ u_count (u (st _ _ _ exWe)) <= d_cap exD) /\
+  map (fun n => script_left (hs _ _ _ (nsvc exD n exWe))) [0; 10; 20; 30; 31] = [30; 21; 11; 1; 0] /\
+  map (fun n => (k_state (k (st _ _ _ (nsvc exD n exWe))), u_state (u (st _ _ _ (nsvc exD n exWe)))))
+      [0; 1; 2; 31; 32] =
+    [(CS_IDLE, US_IDLE); (CS_PARSE_PREFIX, US_READ_LOOP); (CS_HOLD, US_READ_LOOP);
+     (CS_HOLD, US_READ_LOOP); (CS_HOLD, US_IDLE)] /\
+  map (fun n => snd (exdo (nsvc exD n exWe) OService)) (seq 0 40) = repeat ST_BUSY 40 /\
+  suspended (nsvc exD 32 exWe) /\ inq (io _ _ _ (nsvc exD 32 exWe)) = [84; 10]%N /\
+  N.of_nat (C15_bound exD exWe + sched_left exWe) = 414808%N.
+Proof.
+  split; [reflexivity|]. split.
+  { split; [reflexivity|]. split; [exact ex_wf|]. split.
+    { unfold Safe, Base, KS, US, ring_ok, cmd_wk. cbn. repeat split; try lia.
+      repeat (apply Forall_cons; [cbn; lia|]). apply Forall_nil. }
+    split.
+    { replace (ctl_of (st _ _ _ exWe)) with init_ctl by (vm_compute; reflexivity). exact J_init. }
+    split; [reflexivity | cbn; lia]. }
+  vm_compute. repeat split; reflexivity.
+Qed.
+
+Example C15d_ex_event_side_hold_applies :
+  exists n, (N.of_nat n <= 414808)%N /\
+    ((inq (io _ _ _ (nsvc exD n exWe)) = [] /\ snd (exdo (nsvc exD n exWe) OService) = ST_OK) \/
+     suspended (nsvc exD n exWe)).
+Proof.
+  destruct C15d_ex_event_side_hold as (_ & (H1 & H2 & H3 & H4 & H5 & H6) & _ & _ & _ & _ & _ & Hb).
+  exact (ex_applies exWe 414808%N _ (C15_quiescence_or_hold exD [] exWe H1 H2 H3 H4 H5 H6) Hb).
+Qed.
